@@ -86,12 +86,16 @@ class Graph:
 
 # Event fields that are *results* of a call; everything else identifies the call.
 RESULT_FIELDS = {"out", "ret", "usedkey", "method", "err", "val", "res", "path", "errpath", "log", "extra",
-                 "typed", "acceptable", "rop", "rout", "rret", "repl", "tree", "keys", "leak", "nonplain", "sv", "notpt", "vlog", "ns", "paths", "options", "dests", "atomic", "asdict", "computed", "cteq"}
+                 "typed", "acceptable", "rop", "rout", "rret", "repl", "tree", "keys", "leak", "nonplain", "sv", "notpt", "vlog", "ns", "paths", "options", "dests", "atomic", "asdict", "computed", "cteq", "sv2"}
+
+
+# fields that are results in one machine but the argument of these operations
+ARGUMENT_HERE = {("tree", "Load"), ("sv", "DecryptBad")}
 
 
 def case_key(ev):
     # ("tree" is the result of PersistMachine's Render / RoundTrip but the *argument* of a Load)
-    return canon({k: v for k, v in ev.items() if k not in RESULT_FIELDS or (k == "tree" and ev.get("op") == "Load")})
+    return canon({k: v for k, v in ev.items() if k not in RESULT_FIELDS or (k, ev.get("op")) in ARGUMENT_HERE})
 
 
 class Mismatch:
